@@ -47,6 +47,12 @@ svc = service("UniversalService", [
         arg("flag", B, "query", "flag"),
         arg("optDouble", opt(D), "query", "optDouble"),
     ], returns=mp(S, S)),
+    endpoint("listFirst", "GET", "/u/listfirst", [
+        arg("items", lst(S), "query", "items"),
+        arg("tags", st(S), "query", "tags"),
+        arg("optStr", opt(S), "query", "opt"),
+        arg("tail", lst(I), "query", "tail"),
+    ]),
     endpoint("headers", "GET", "/u/headers", [
         arg("xStr", S, "header", "X-Str"),
         arg("xOptInt", opt(I), "header", "X-Opt-Int"),
